@@ -1,6 +1,8 @@
 //! xv — conformance harness binding the TLA+ specification in /verif/spec to the real xot crate.
 //! Sub-commands write / read ndjson; TLC is the judge of every event (see /verif/DESIGN.md).
+mod build;
 mod forest;
+mod html;
 mod intern;
 mod observe;
 mod proj;
@@ -275,6 +277,8 @@ fn main() {
         "observe" => observe_cmd(&args[2..]),
         "parse" => jobs_cmd(&args[2..], text::parse_job),
         "ser" => jobs_cmd(&args[2..], ser::ser_job),
+        "html" => jobs_cmd(&args[2..], html::html_job),
+        "build" => jobs_cmd(&args[2..], build::build_job),
         "intern-drive" => {
             let a = &args[2..];
             intern::intern_drive(
